@@ -6,31 +6,31 @@ hook_commits = subprocess.run(["git", "-C", "/repo", "log", "--format=%h %s", "-
 
 CHECKS = {
  "C01": ("model_checking", "TLC model checking of LzmaCoding/LzmaDecoder + replay of every exported behaviour and long spec walks into lzma-rs",
-         "TLC explores all symbol programs of the bounded models (implementation-shaped circular-window decoder refines the unbounded-history format semantics; context indices in bounds for every lc/lp/pb of the run) and every exported behaviour is range-coded from TLC's own decision lists and decoded by the real one-shot, raw and streaming decoders; long walks age the adaptive state. Right level: the property quantifies over programs x settings, which is what the model enumerates; the 32-bit arithmetic is outside TLA+ and is covered by differential execution through the kernel. The end marker is modelled as a symbol of any length (eosn); raw-API behaviours are also decoded on a reset object that decoded another stream before.",
+         "TLC explores all symbol programs of the bounded models (implementation-shaped circular-window decoder refines the unbounded-history format semantics; context indices in bounds for every lc/lp/pb of the run) and every exported behaviour is range-coded from TLC's own decision lists and decoded by the real one-shot, raw and streaming decoders; long walks age the adaptive state. Right level: the property quantifies over programs x settings, which is what the model enumerates; the 32-bit arithmetic is outside TLA+ and is covered by differential execution through the kernel. The end marker is modelled as a symbol of any length (eosn); raw-API behaviours are also decoded on a reset object that decoded another stream before. Clause ownership: acceptance and exact bytes of well-formed streams on the one-shot and raw decoders (Stream cases and reset-vs-new comparisons are DRIFT here); raw dictionaries below 4096 are judged against both readings of 'dictionary size in effect'.",
          "5 C01"),
  "C08": ("model_checking", "TLC model checking of LzmaDecoder (size/marker rules) + replay of every exported terminal behaviour",
-         "All terminations (size reached exactly, overshoot by a match, marker before size, input ends early, marker, clean end without marker) of all bounded programs are enumerated by TLC with the SizeRule/Verdict invariants and replayed into the raw decoder; option x header-field combinations are replayed on the one-shot and streaming APIs. LzmaHeader.tla (all 256 property bytes, dictionary clamp, 13/13/5 header bytes, size override, size classes up to 2^64-2) and EntryPoints.tla (the end / size rules stated declaratively over classes: SizeExact, OverrideRule, MarkerEnds, TrailIgnored, OptionsAgree) are model-checked and every exported case is replayed through lzma_decompress, lzma_decompress_with_options, LzmaParams::read_header + LzmaDecoder, a raw decoder re-sized through reset, and Stream (one write / bytewise).",
+         "All terminations (size reached exactly, overshoot by a match, marker before size, input ends early, marker, clean end without marker) of all bounded programs are enumerated by TLC with the SizeRule/Verdict invariants and replayed into the raw decoder; option x header-field combinations are replayed on the one-shot and streaming APIs. LzmaHeader.tla (all 256 property bytes, dictionary clamp, 13/13/5 header bytes, size override, size classes up to 2^64-2) and EntryPoints.tla (the end / size rules stated declaratively over classes: SizeExact, OverrideRule, MarkerEnds, TrailIgnored, OptionsAgree) are model-checked and every exported case is replayed through lzma_decompress, lzma_decompress_with_options, LzmaParams::read_header + LzmaDecoder, a raw decoder re-sized through reset, and Stream (one write / bytewise). Each comparison names its clause (accept-valid, output-length, reject:<class>, header-bytes ...) and only the clauses C08 states raise a violation: number of bytes produced under a size in effect, the reject rules, the override, and 13/13/5 header bytes (observed through LzmaParams::read_header); other clauses seen on the way are DRIFT.",
          "5 C08"),
  "C09": ("model_checking", "TLC model checking of the circular window (NoFabrication, Verdict) + replay of every behaviour ending in an out-of-window copy",
          "TLC proves for the bounded model that the transcribed window code never reads an unwritten cell and errs exactly when the format says the copy is invalid; each such behaviour (distance > produced, > dictionary, huge, via matched literal; before and after the wrap) is replayed on the raw decoder with the same real dictionary size. Fabrication probes (a lenient decoder is given a consistent continuation) cover every entry point incl. Stream with allow_incomplete, a decoder object used twice without reset (carried repeat distances against a new window) and LZMA2 dictionary-reset chunks on both sides of 64 KiB.",
          "5 C09"),
  "C10": ("model_checking", "TLC model checking of BufBound/Verdict under every memory limit + replay into the raw decoder",
-         "For every limit m in 0..D and none, TLC checks that the modelled window never exceeds m and fails exactly when min(D, produced) > m; the behaviours are replayed with memlimit = m on the real decoder (verdict and bytes).",
+         "For every limit m in 0..D and none, TLC checks that the modelled window never exceeds m and fails exactly when min(D, produced) > m; the behaviours are replayed with memlimit = m on the real decoder (verdict and bytes). Judged relative to the real run without a limit, as the property is stated.",
          "5 C10"),
  "C05": ("model_checking", "TLC model checking of Stream.tla (all shapes x all chunkings; real constants read from the code) + TLC trace validation of recorded Stream executions + differential against the one-shot decoder",
-         "EqOneShot is checked by TLC on every composition of every bounded stream shape into write calls, and on the real constants (read from the implementation through the hook) with symbols costing up to the format bound of 20 bytes. The model is bound to the code by validating every call of seeded runs of the real Stream (return value, phase, tmp fill, partial-buffer fill, committed symbols) against the specification; the contract (verdict and bytes equal to the one-shot decoder on the same input) is compared for every run. Tiny streams are fed in every composition into <= 3 writes under all option styles; flush() is part of every other call sequence; streams of several window lengths (4 KiB dictionary) are included.",
+         "EqOneShot is checked by TLC on every composition of every bounded stream shape into write calls, and on the real constants (read from the implementation through the hook) with symbols costing up to the format bound of 20 bytes. The model is bound to the code by validating every call of seeded runs of the real Stream (return value, phase, tmp fill, partial-buffer fill, committed symbols) against the specification; the contract (verdict and bytes equal to the one-shot decoder on the same input) is compared for every run. Tiny streams are fed in every composition into <= 3 writes under all option styles; flush() is part of every other call sequence; streams of several window lengths (4 KiB dictionary) are included. A counterexample of Stream.tla at the constants read from the code is shape tier (DRIFT); violations come from executions of the real Stream.",
          "5 C05"),
  "C15": ("model_checking", "TLC model checking of Lag/Progress in Stream.tla + trace validation + prefix runs with allow_incomplete on the real Stream",
          "Lag (accepted-but-uncommitted bytes = partial buffer + staging buffer <= 27) and Progress (whatever is decodable from the accepted bytes is committed) are invariants of Stream.tla checked for all shapes x chunkings; on the real code every sampled prefix of valid streams is fed under random chunkings with allow_incomplete: sink and finish() output must be prefixes of the full output and include all symbols ending 64 bytes before the cut; finish must succeed iff header + preamble are inside the prefix. Includes a 13 KB stream over a 4 KiB dictionary (prefixes before, at and after the window wraps).",
          "5 C15"),
  "C16": ("model_checking", "TLC model checking of the Latch action property + trace validation of call sequences that continue after failure / completion",
-         "Latch ([][phase = None => nothing moves]_vars) and NoZeroProgress are checked on every behaviour of the bounded models; real call sequences keep calling write/flush after the first error or after the declared size was reached and every call is validated against the spec; contract: no consumption, no sink growth, finish is Err after a failed write; Ok(0) and unchanged output after completion; no panic. Includes declared sizes that fall strictly inside a copy with more input following (the sink may never hold more than the symbols up to the completing one produce) and Flush events in the validated traces.",
+         "Latch ([][phase = None => nothing moves]_vars) and NoZeroProgress are checked on every behaviour of the bounded models; real call sequences keep calling write/flush after the first error or after the declared size was reached and every call is validated against the spec; contract: no consumption, no sink growth, finish is Err after a failed write; Ok(0) and unchanged output after completion; no panic. Includes declared sizes that fall strictly inside a copy with more input following (the sink may never hold more than the symbols up to the completing one produce) and Flush events in the validated traces. Only C16's clauses raise a violation (latch after a failed write, finish is Err, no panic, and: once the calls have taken the payload plus 64 KiB every later write consumes nothing); the comparison with the one-shot decoder and what flush() does are DRIFT here.",
          "5 C16"),
  "C03": ("model_checking", "TLC model checking of Xz.tla (AcceptsWellFormed, PadLemma) + replay of every exported well-formed file into xz_decompress",
          "TLC enumerates every well-formed supported file of the bounded model and checks that the field-level transcription of the parser (with the code's own padding and record arithmetic) accepts it; the harness serialises each abstract file (own CRC32/CRC64) and the real decoder must return exactly the concatenation of the block contents. Every accepted file is decoded right after a decode that fails inside a block on the same thread, through fragmenting sources and into short-writing sinks.",
          "5 C03"),
  "C06": ("model_checking", "TLC model checking of Xz.tla (AcceptImpliesIntegrity, SinkOnlyVerified, MutationsAreCaught) + replay of every single-field mutation (CRCs repaired) + exhaustive bit flips / truncations of small files",
-         "Every single-field mutation of every bounded file is enumerated by TLC (parser transcription vs declarative integrity, with the footer comparison in the arithmetic the code uses) and replayed byte-exactly with all enclosing CRCs recomputed, so only the field's own validation can reject it; in addition every single-bit flip and every truncation of small CRC32/CRC64 files must fail or leave the output identical. Mutations include a self-consistent index listing fewer records than blocks; every rejected file is also decoded through fragmenting sources (1-byte, odd, every two-fragment split near the footer and inside the mutated header padding) and must be rejected there too.",
+         "Every single-field mutation of every bounded file is enumerated by TLC (parser transcription vs declarative integrity, with the footer comparison in the arithmetic the code uses) and replayed byte-exactly with all enclosing CRCs recomputed, so only the field's own validation can reject it; in addition every single-bit flip and every truncation of small CRC32/CRC64 files must fail or leave the output identical. Mutations include a self-consistent index listing fewer records than blocks; every rejected file is also decoded through fragmenting sources (1-byte, odd, every two-fragment split near the footer and inside the mutated header padding) and must be rejected there too. Selected mutations are the integrity fields C06 lists (those only C18 states - stream padding, reserved block flags, foreign filters, filter chains - are not selected); a panic is C07's business under C06.",
          "5 C06"),
  "C18": ("model_checking", "TLC model checking of Xz.tla (UnsupportedRefused) + replay of every file using an unsupported feature",
          "All 16 check ids, foreign filter ids, two-filter chains, wrong filter property sizes, reserved bits and trailing bytes are enumerated on every bounded file by TLC and replayed: the real decoder must return an error. Rejected files are also decoded through fragmenting sources (every two-fragment split of the last 16 + trailing bytes).",
@@ -39,10 +39,10 @@ CHECKS = {
          "TLC enumerates all format-valid chunk sequences of the bounded model (every reset class after every chunk kind, matches into data of earlier compressed and uncompressed chunks) and checks the transcribed chunk layer against the declarative chunk semantics; each behaviour is serialised by an encoder that carries state, rep distances and probabilities across chunks exactly as the format says, so a missing or spurious reset in the code desynchronises; long random chunk sequences add aged probabilities, size extremes and property changes. A well-formed stream offered twice to the same Lzma2Decoder without reset must give the same bytes (RawReuse!WellFormedStartIsFresh).",
          "5 C02"),
  "C17": ("model_checking", "TLC model checking of Lzma2.tla (FramingRejected, Verdict) + replay of every chunk sequence ending in one framing fault",
-         "Each framing fault of the property statement is an action or a parameter of the chunk model; TLC checks that the transcribed decoder ends in an error for all of them at every chunk position of the bounded model and the harness replays each one into lzma2_decompress, the raw decoder and a one-block .xz. Seeded long well-formed chunk sequences get one framing fault injected at a random chunk (control byte, properties byte, declared sizes +-1..65536, cut, end byte, lowered reset class, stray bytes).",
+         "Each framing fault of the property statement is an action or a parameter of the chunk model; TLC checks that the transcribed decoder ends in an error for all of them at every chunk position of the bounded model and the harness replays each one into lzma2_decompress, the raw decoder and a one-block .xz. Seeded long well-formed chunk sequences get one framing fault injected at a random chunk (control byte, properties byte, declared sizes +-1..65536, cut, end byte, lowered reset class, stray bytes). Spare declared input after the last symbol is an error only if at least one more output byte is decodable from it (otherwise the verdict is open); malformed framing accepted by an object that had rejected the same stream before is reported.",
          "5 C17"),
  "C12": ("model_checking", "TLC model checking of IoFaults.tla + exhaustive fault enumeration per input on every entry point, call logs validated by TLC against the I/O contract",
-         "IoFaults.tla states the contract over individual sink/source calls (error iff a call failed, accepted bytes always a prefix, complete and flushed on Ok) and is model-checked against a reference write_all pipeline under every fault script; on the real code every fault position (each write as Err and as Ok(0), each flush, each read) of every sample input is enumerated for all decoders, the raw LZMA2 decoder, Stream and all encoder variants, with short-write patterns; the recorded call logs are validated by TLC with the contract as invariant. Every finished behaviour of MC_IoFaults is replayed as a positional script of sink answers (short writes followed by a failure, Ok(0), failing flush) on every entry point; empty plaintexts and Stream::flush are included.",
+         "IoFaults.tla states the contract over individual sink/source calls (error iff a call failed, accepted bytes always a prefix, complete and flushed on Ok) and is model-checked against a reference write_all pipeline under every fault script; on the real code every fault position (each write as Err and as Ok(0), each flush, each read) of every sample input is enumerated for all decoders, the raw LZMA2 decoder, Stream and all encoder variants, with short-write patterns; the recorded call logs are validated by TLC with the contract as invariant. Every finished behaviour of MC_IoFaults is replayed as a positional script of sink answers (short writes followed by a failure, Ok(0), failing flush) on every entry point; empty plaintexts and Stream::flush are included. After an Ok(0) answer of the sink both an error and a complete delivery are accepted; the flush clause is demanded of the LZMA / LZMA2 decoders.",
          "5 C12"),
  "C11": ("model_checking", "TLC model checking of Reader.tla / RangeCoderSmall.tla (LockStep) / LzmaDecoder.tla / Lzma2.tla + replay with the consumed-bytes comparison on; embedded payloads with trailing bytes through several reader kinds",
          "The stop rules (size reached, end control byte) are actions of the decoder models and every successful behaviour TLC exports is replayed with the reader position compared against the end of the payload; payloads followed by arbitrary bytes are decoded in place through slices, Cursors, scripted sources and BufReaders of several capacities. The byte position itself (decoder consumption = encoder emission) is range-coder arithmetic and comes from the harness kernel, not from TLA+. EntryPoints.tla cases are replayed with the consumed-bytes comparison through the plain, option, building-block and re-sized raw entry points.",
@@ -54,7 +54,7 @@ CHECKS = {
          "RawReuse.tla lets a decode leave any used state behind and checks that reset restores the projection of a new decoder; on the real objects seeded histories of valid / corrupt / truncated / property-changing / state-leaning streams and all reset variants are run, every decompress after a reset is repeated on a new object (verdict and bytes must agree) and the projection hook after every call is validated against the specification. Sweeps: every way of re-declaring the size (none, 0, n, n+1, 2^32+n, 2^63, 2^64-2, 2^64-1) on every pool stream; first use (any pool stream) -> reset -> state-leaning probe for Lzma2Decoder; RawReuse also shows why a well-formed LZMA2 stream does not depend on the object's history (L2FirstChunk).",
          "5 C14"),
  "C04": ("model_checking", "TLC model checking of Encoder.tla and RangeCoderSmall.tla + TLC validation of the structure parsed from real encoder outputs + differential round trip through three decoders (incl. a corpus of inputs that put the range encoder on its flush-test boundaries)",
-         "Encoder.tla maps (input, source fragmentation, option) to the abstract symbol / chunk / field structure; TLC checks for all inputs up to 7 bytes, all options and all fragmentations that the format semantics decode it back to the input and that the container arithmetic is the format's. Real outputs for lengths around 0 and k*64 KiB x content families x fragmentations are parsed back and validated by TLC against that structure, and decoded by lzma-rs, the harness reference decoder and liblzma (when the xz program exists). The range encoder's carry arithmetic is outside TLA+ and is covered by the differential part. The corpus also holds inputs that make a carry ripple through 3..26 pending bytes of the range encoder (steered search), and inputs longer than the 8 MiB dictionary the encoder announces.",
+         "Encoder.tla maps (input, source fragmentation, option) to the abstract symbol / chunk / field structure; TLC checks for all inputs up to 7 bytes, all options and all fragmentations that the format semantics decode it back to the input and that the container arithmetic is the format's. Real outputs for lengths around 0 and k*64 KiB x content families x fragmentations are parsed back and validated by TLC against that structure, and decoded by lzma-rs, the harness reference decoder and liblzma (when the xz program exists). The range encoder's carry arithmetic is outside TLA+ and is covered by the differential part. The corpus also holds inputs that make a carry ripple through 3..26 pending bytes of the range encoder (steered search), and inputs longer than the 8 MiB dictionary the encoder announces. Contract tier (what raises a VIOLATION): the output decodes back through lzma-rs, through the harness' reference decoders (which accept any structure: .lzma, LZMA2, and a reference .xz container parser) and through liblzma when present; the comparison of the emitted STRUCTURE with Encoder.tla (Trace_Encoder) is shape tier (DRIFT), because C04 does not fix which symbols, parameters, chunk boundaries or check type the encoders use.",
          "5 C04"),
  "C07": ("model_checking", "TLC invariants for index/arith bounds and termination on the structural models + seeded exploration of all decoding entry points with panic capture, watchdog and counting allocator, outcomes validated by TLC against Totality.tla",
          "Model checking covers the structured part: every probability index inside its table for all 225 lc/lp/pb, window cursor/buffer bounds, no narrowing arithmetic in the container model, liveness of the decoder loop. The 'every byte string' part is necessarily exploration: 200 000 (quick) seeded inputs - random, mutated valid streams, CRC-repaired field extremes, huge headers, long outputs - through all six entry points with all options; each outcome (Ok/Err, bytes consumed/produced, peak heap) is an event that TLC validates against Totality.tla (no panic / hang event exists in the specification; peak <= A0 + K*(input+produced)).",
